@@ -294,6 +294,11 @@ def cases(tier, seed):
       out.append(dict(name=nm, fn='case_linear',
                       params=dict(name=nm, mono=mono, mdom=[], rdom=[], imin=[None] * len(mono), imax=[None] * len(mono),
                                   norm=norm, units=2), cap=300, required=norm != 2))
+  # bounds whose value is 0.0 (falsy), one- and two-sided, with and without ordering pairs
+  for (omin, omax) in ((-1.0, 0.0), (None, 0.0), (0.0, None), (0.0, 0.0), (0, 2)):
+    for pairs in ([], [[0, 1]], [[0, 1], [0, 2], [1, 3], [2, 3]]):
+      nm = 'cat-zero-%s-b%s,%s' % (json.dumps(pairs, separators=(',', ':')), omin, omax)
+      out.append(dict(name=nm, fn='case_categorical', params=dict(name=nm, n=4, units=2, pairs=pairs, omin=omin, omax=omax), cap=200))
   # mixed: monotonic dominance and range dominance on disjoint dims
   nm = 'lin-mixed'
   out.append(dict(name=nm, fn='case_linear',
